@@ -257,6 +257,11 @@ class Ledger(qsim.Oracle):
                         r.marked = parsed[r.idx][1] == b"D"
                         if was and not r.marked:
                             r.mark_reverted = True
+                        if r.final() and not r.marked:
+                            # reported K/D but the mark is not on disk (crash before the mark write, a reverted
+                            # un-fsynced mark, or a failed mark write): the new daemon legitimately tries again
+                            r.reports.append("R")
+                            self.res.counters.inc("records_reopened_at_restart")
 
     def on_step(self, ev, sim):
         c = ev.get("c")
